@@ -216,3 +216,7 @@ func vpH_C04_penalty() {
 	vpCover(reason == RejectValidationFailed && dupBefore && dupAfter, "reject with forwarders before and after")
 	vpCover(reason == RejectValidationIgnored && dupBefore, "ignored with a forwarder")
 }
+
+// C02 gate (accept-once): the same pipeline harness is part of the C02 check: an ID that is already seen reaches
+// neither the validators nor delivery, for remote and local origin alike.
+func vpH_C02_gate() { vpPipeline(2) }
